@@ -644,6 +644,7 @@ pub fn run(tier: Tier) -> RunOutcome {
     let mut n_rejected = 0;
     let mut n_solves_after_update = 0;
     let mut dirty = false; // an accepted update since the last solve
+    let mut had_failure = false; // an earlier solve on this object gave up numerically
     let mut trace = vec![];
     let mut fresh_sid = 100;
     for opk in 0..nops {
@@ -729,8 +730,32 @@ pub fn run(tier: Tier) -> RunOutcome {
                 let failed = |s: SolverStatus| {
                     matches!(s, SolverStatus::NumericalError | SolverStatus::InsufficientProgress)
                 };
+                let is_verdict = |s: SolverStatus| {
+                    matches!(
+                        s,
+                        SolverStatus::Solved
+                            | SolverStatus::PrimalInfeasible
+                            | SolverStatus::DualInfeasible
+                            | SolverStatus::AlmostSolved
+                            | SolverStatus::AlmostPrimalInfeasible
+                            | SolverStatus::AlmostDualInfeasible
+                    )
+                };
                 let both_numerical_error = failed(snap.status) && failed(fsnap.status);
-                if both_numerical_error {
+                let after_failure_no_verdict =
+                    had_failure && !(is_verdict(snap.status) && is_verdict(fsnap.status));
+                if failed(snap.status) {
+                    had_failure = true;
+                }
+                if after_failure_no_verdict && !both_numerical_error {
+                    // an earlier solve on this object gave up numerically and this one reaches
+                    // no verdict either (e.g. max_iter = 0 returning the starting point): the
+                    // point it stops at depends on what the failed solve left behind (the
+                    // starting-point KKT solve's failure is ignored and x keeps its old value);
+                    // the property promises equivalence of verdicts and objectives, not of
+                    // limit-cut iterates after a breakdown
+                    probe("c08_no_verdict_after_earlier_failure_not_compared");
+                } else if both_numerical_error {
                     // both runs gave up (NumericalError / InsufficientProgress are not verdict
                     // classes); where and with what garbage iterate a failing run gives up
                     // depends on leftover state of earlier solves and is specified by no property
